@@ -62,6 +62,8 @@ def material(rng, kind):
                 m["const_share"] = {i: j}
     if kind == "legacy" and rng.random() < 0.5:
         m["explicit_dims"] = True
+    if rng.random() < 0.6:
+        m["texture_flags"] = [rng.choice([0, 0x8000, 0x8000, 1, 0xFFFF]) for _ in range(ntex)]
     m["samplers"] = [(rng.randrange(len(mtrlshpk.SAMPLER_IDS)), rng.getrandbits(32), rng.randrange(max(ntex, 1))) for _ in range(rng.randint(0, 4))]
     return m
 
@@ -122,7 +124,7 @@ def check(run):
         n += 1
     ext = [0, 1, 31, 2**31, 2**32 - 1, 0x12345678]
     for _ in range(60 if run.tier == "quick" else 600):
-        lists = [[W(rng.choice(ext) if rng.random() < 0.4 else rng.getrandbits(32)) for _ in range(rng.randint(0, 6))] for _ in range(4)]
+        lists = [[W(rng.choice(ext) if rng.random() < 0.4 else rng.getrandbits(32)) for _ in range(rng.choice([0, 1, 2, 3, 4, 5, 6, 8, 9, 12, 17]))] for _ in range(4)]
         cases.append(Case([{"op": "assets.selector", "case": n, "lists": lists}], desc={"key lists": [len(x) for x in lists]},
                           nontrivial=any(lists)))
         n += 1
@@ -130,7 +132,7 @@ def check(run):
                 "component of every row, dye tables with every bit set once, 0..4 textures / keys / constants (1..4 floats; value slices out of table order, with gaps, shared; legacy tables with and without "
                 "explicit 0x42 dimensions) / samplers; shader packages (DX9/DX11, 0..3 vertex and pixel shaders with 0..3 parameters per list, material "
                 "parameters with/without defaults, key tables, 1..4 nodes with 0..3 passes, aliases incl. one shadowed by a node) with every "
-                "selector of the table and an absent one probed; key lists of length 0..6 with extreme values; distinct by bytes")
+                "selector of the table and an absent one probed; key lists of length 0..17 with extreme values; texture entries with and without flag bits; distinct by bytes")
     run.conform(cases, MODULE, CFG, shards=14, xmx="4g")
     run.assumptions = ["private fields of Constant, Sampler, Pass and MaterialParameter are read from their Debug rendering",
                        "texture paths are laid out in order at the start of the string heap (how the library locates them)",
